@@ -90,6 +90,26 @@ func (n *node) ser(sb *strings.Builder) {
 	sb.WriteByte(']')
 }
 
+// sameButFileMeta: the two trees differ at most in the mode / mtime of files
+func sameButFileMeta(a, b *node) bool {
+	if a.dir != b.dir {
+		return false
+	}
+	if !a.dir {
+		return string(a.data) == string(b.data)
+	}
+	if a.mode != b.mode || a.mt != b.mt || len(a.kids) != len(b.kids) {
+		return false
+	}
+	for k, x := range a.kids {
+		y, ok := b.kids[k]
+		if !ok || !sameButFileMeta(x, y) {
+			return false
+		}
+	}
+	return true
+}
+
 func (n *node) String() string {
 	var sb strings.Builder
 	n.ser(&sb)
@@ -684,6 +704,50 @@ func gen(r *vh.Rand, tier string, n int, emit func(vh.Case)) {
 				c.Ops = append(c.Ops, op)
 				continue
 			}
+			if k >= 30 && cr.Chance(1, 14) {
+				// an Mv / Unlink of an ancestor landing in the propagation gap of a flush below it
+				var dirs, files [][]string
+				g.collect(g.t, nil, &dirs, &files)
+				var trig string
+				var tp []string
+				switch x := cr.Intn(10); {
+				case x < 3 && fdOpen:
+					trig, tp = vh.Pick(cr, []string{"fdflush", "fdclose"}), fdAt
+					if trig == "fdclose" {
+						fdOpen = false
+					}
+				case x < 7 && len(files) > 0:
+					tp = vh.Pick(cr, files)
+					if cr.Bool() {
+						trig = fmt.Sprintf("write %s %d %s %d", join(tp), cr.Intn(4), vh.Hex(cr.Bytes(cr.Range(1, 3))), cr.Range(1, 2))
+					} else {
+						trig = fmt.Sprintf("flush %s", join(tp))
+					}
+				case len(dirs) > 0:
+					tp = vh.Pick(cr, dirs)
+					trig = fmt.Sprintf("flush %s", join(tp))
+				}
+				if trig != "" && len(tp) > 0 {
+					var intr string
+					if cr.Chance(3, 4) {
+						anc := tp[:cr.Range(1, len(tp))]
+						if cr.Chance(2, 3) {
+							dst := g.path(vh.Pick(cr, []string{"newdir", "dir", "newfile"}))
+							intr = fmt.Sprintf("mv %s %s", join(anc), dst)
+							specMv(g.t, parsePath(join(anc)), parsePath(dst))
+						} else {
+							intr = fmt.Sprintf("rm %s", join(anc))
+							specRm(g.t, parsePath(join(anc)))
+						}
+					} else {
+						src, dst := g.path("any"), g.path(vh.Pick(cr, []string{"dir", "newfile", "newdir"}))
+						intr = fmt.Sprintf("mv %s %s", src, dst)
+						specMv(g.t, parsePath(src), parsePath(dst))
+					}
+					c.Ops = append(c.Ops, strings.ReplaceAll(fmt.Sprintf("race %d %s @ %s", cr.Range(1, len(tp)), intr, trig), "//", "/"))
+					continue
+				}
+			}
 			if k >= 30 && cr.Chance(1, 9) {
 				switch x := cr.Intn(12); {
 				case x < 5:
@@ -907,8 +971,46 @@ func exec(c vh.Case, o *vh.Out) {
 		}
 	}()
 
+	// the two operations that may be run inside another one's propagation gap
+	realIntruder := func(f []string) string {
+		switch f[0] {
+		case "mv":
+			return class(mfs.Mv(w.root, f[1], f[2]))
+		case "rm":
+			dirp, name := parsePath(f[1]).split()
+			d, err := mfs.Lookup(w.root, "/"+strings.Join(dirp, "/"))
+			if err != nil {
+				return class(err)
+			}
+			dd, ok := d.(*mfs.Directory)
+			if !ok {
+				return "notdir"
+			}
+			return class(dd.Unlink(name))
+		}
+		return "bad-intruder"
+	}
 	for idx, line := range c.Ops {
 		f := strings.Fields(line)
+		// race <k> <mv|rm ...> @ <trigger op ...>: the first op runs completely at the k-th
+		// "Directory.updateChildEntry:localDone" schedule point reached by the trigger op (after it, if the
+		// trigger does not get that far)
+		racing, raceK := false, 0
+		var raceIntr []string
+		if f[0] == "race" {
+			at := 0
+			for i, t := range f {
+				if t == "@" {
+					at = i
+				}
+			}
+			if at < 3 || at+1 >= len(f) {
+				o.Emit("bad-op")
+				continue
+			}
+			racing, raceK, raceIntr, f = true, vh.Atoi(f[1]), f[2:at], f[at+1:]
+			o.Kind("race")
+		}
 		if f[0] == "cfg" {
 			if w.root != nil {
 				o.Emit("bad-op")
@@ -972,11 +1074,29 @@ func exec(c vh.Case, o *vh.Out) {
 			}
 			if busy {
 				o.Kind("busy-" + f[0])
-				view := emit("busy", "")
+				bres := "busy"
+				if racing {
+					bres = "busy ; busy"
+				}
+				view := emit(bres, "")
 				if view != nil && view.String() != pre.String() {
 					o.Fail("busy-op-changed-tree", "op %d %q", idx, line)
 				}
 				continue
+			}
+		}
+		intrDone, intrRes, fired := false, "", 0
+		if racing {
+			mfs.VerifSchedHook = func(pt string) {
+				if pt != "Directory.updateChildEntry:localDone" || intrDone {
+					return
+				}
+				fired++
+				if fired == raceK {
+					intrDone = true
+					intrRes = realIntruder(raceIntr)
+					o.Kind("race-in-gap")
+				}
 			}
 		}
 		specFlushUp := func(full bool) {
@@ -1298,7 +1418,7 @@ func exec(c vh.Case, o *vh.Out) {
 			w.mu.Lock()
 			pc := w.pub
 			w.mu.Unlock()
-			if res != "ok" || nopub {
+			if res != "ok" || nopub || racing {
 				// nothing was waited for: the republisher may still hold newer values (or there is none)
 				break
 			}
@@ -1431,6 +1551,37 @@ func exec(c vh.Case, o *vh.Out) {
 			o.Emit("bad-op")
 			continue
 		}
+		if racing {
+			mfs.VerifSchedHook = nil
+			if !intrDone {
+				intrRes = realIntruder(raceIntr)
+				o.Kind("race-after")
+			}
+			// tree semantics: the trigger, then the intruder
+			iwant := "bad-intruder"
+			switch raceIntr[0] {
+			case "mv":
+				src, dst := parsePath(raceIntr[1]), parsePath(raceIntr[2])
+				var final []string
+				iwant, final = specMv(spec, src, dst)
+				if iwant == "ok" && sfd != nil && !src.trailing && len(src.comps) > 0 &&
+					(isPrefix(src.comps, sfd.path) || eqPath(final, sfd.path)) {
+					sfd.alive = false
+				}
+			case "rm":
+				p := parsePath(raceIntr[1])
+				dirp, name := p.split()
+				iwant = specRm(spec, p)
+				if iwant == "ok" && sfd != nil && isPrefix(append(append([]string(nil), dirp...), name), sfd.path) {
+					sfd.alive = false
+				}
+			}
+			o.Kind("race-intruder-" + intrRes)
+			res, extra = res+" ; "+intrRes, ""
+			if wantClass != "" {
+				wantClass = wantClass + " ; " + iwant
+			}
+		}
 		o.Kind(f[0] + "-" + strings.SplitN(res, " ", 2)[0])
 		view := emit(res, extra)
 
@@ -1458,6 +1609,9 @@ func exec(c vh.Case, o *vh.Out) {
 			}
 		}
 		resClass := strings.SplitN(res, " ", 2)[0]
+		if racing && resClass != "ok" && strings.HasSuffix(res, " ; ok") {
+			resClass = "ok" // the intruder succeeded: the tree may have changed
+		}
 		if resClass != "ok" && view.String() != pre.String() {
 			o.Fail("failed-op-changed-tree-"+f[0], "op %d %q returned %s; tree before %v after %v", idx, line, res, pre, view)
 			// keep following the implementation so that one defect is reported once
@@ -1476,6 +1630,16 @@ func exec(c vh.Case, o *vh.Out) {
 		}
 		if view.String() != viewMustBe.String() {
 			sig := "tree-" + f[0]
+			if racing {
+				sig = "race-tree"
+				// the directory (or file) the intruder moved away / removed is back under its old name
+				gone := parsePath(raceIntr[1]).comps
+				if _, cl := view.walk(gone); cl == "ok" {
+					if _, cl2 := viewMustBe.walk(gone); cl2 != "ok" {
+						sig = "race-unlinked-entry-written-back"
+					}
+				}
+			}
 			switch f[0] {
 			case "fdwrite", "fdtrunc":
 				// nothing reaches the tree before the descriptor is flushed
@@ -1483,6 +1647,10 @@ func exec(c vh.Case, o *vh.Out) {
 			case "fdflush", "fdclose":
 				if !fdWasAlive {
 					sig = "fd-detached-flush-changed-tree"
+				}
+				if racing && sameButFileMeta(view, viewMustBe) {
+					// the flush put the open-time metadata back (known), then the intruder moved the file away
+					sig = "fd-flush-reverts-metadata"
 				}
 			}
 			if f[0] == "mv" {
